@@ -46,6 +46,7 @@ class DBusMessage :
 
     # Set during marshalling/unmarshalling
     endian = ord('l')
+    _fromWire = False
     bodyLength = 0
     serial = None
     headers = None
@@ -88,7 +89,13 @@ class DBusMessage :
         _headerAttrs = self._headerAttrs
 
         # marshal body before headers to know if the 'unix_fd' header is needed
-        if self.signature:
+        if self.signature and self._fromWire and not newSerial:
+            # a message taken off the wire is serialised again (the bus does
+            # so to stamp the sender): its body travels on as it came, in the
+            # byte order it came in. Encoding the decoded values afresh would
+            # retype what variants hold (UINT32 7 comes back as INT32 7)
+            binBody = self.rawBody
+        elif self.signature:
             binBody = b''.join(
                 marshal.marshal(
                     self.signature,
@@ -391,6 +398,9 @@ def parseMessage(rawMessage, oobFDs):
     m.rawPadding = rawMessage[nheader: nheader + npad]
 
     m.rawBody = rawMessage[nheader + npad:]
+
+    m._fromWire = True
+    m.endian = rawMessage[0]
 
     m.serial = hval[5]
 
